@@ -190,6 +190,29 @@ def build(spec, style=0):
     raise KeyError(k)
 
 
+def build_via_history(spec, style=0):
+    """the same value as build(spec, style), reached the way long-lived objects reach it: built in an
+    older state (other time bounds, stale property values), exported / observed once, then updated IN
+    PLACE (set_dt / strip_dt / set_property).  The export that follows must describe the current state
+    (C14: 'time bounds and user properties under "properties"'), whatever was observed before."""
+    target_dt = mkdt(spec.get('dt'), style)
+    target_props = copy.deepcopy(spec.get('props') or {})
+    old = dict(spec)
+    old['dt'] = (11, 13) if spec.get('dt') is None or style % 2 else None
+    old['props'] = {k: 'stale' for k in target_props} if style % 4 < 2 else {}
+    obj = build(old, style)
+    obj.to_geojson()                      # observed once in the old state (twice: dict and collection paths)
+    FeatureCollection([obj]).to_geojson()
+    guarded(lambda: (obj.properties, obj.bounds))      # bounds raises for polygons carrying Z
+    if target_dt is None:
+        obj.strip_dt()
+    else:
+        obj.set_dt(target_dt)
+    for k_, v_ in target_props.items():
+        obj.set_property(k_, v_)
+    return obj
+
+
 def poly_lit(p, obj, enc):
     hs = [hole_lit(h, ho, enc) for h, ho in zip(p.get('holes', []), obj.holes)]
     return f'(mk_polygon 720 {rlit(p["o"], enc)} {listlit(hs)})'
@@ -568,13 +591,16 @@ def main():
     exported_docs = []
     for n, spec in enumerate(specs):
         kind = spec['kind']
-        obj = build(spec, style=n)
+        via_history = n % 5 == 2
+        obj = build_via_history(spec, style=n) if via_history else build(spec, style=n)
         ups = copy.deepcopy(UPS[n % len(UPS)])
         kw = [{}, {'id': n}, {'foo': 'bar', 'id': 'x'}][n % 3]
         k = [None, 4, 9][n % 3]
         g = guarded(lambda: obj.to_geojson(properties=copy.deepcopy(ups), k=k, **kw))
         slit_, outer, inner = shape_lit(spec, obj, Q, k)
-        m = {'op': 'export', 'kind': kind, 'spec': spec, 'ups': ups, 'kw': kw, 'k': k, 'style': n}
+        m = {'op': 'export', 'kind': kind, 'spec': spec, 'ups': ups, 'kw': kw, 'k': k, 'style': n, 'via_history': via_history}
+        if via_history:
+            ck.count('export-after-in-place-updates')
         if g[0] != 'Ok':
             pyviol.append((m, 'export_shape', f'to_geojson raised {g[1]}'))
             continue
@@ -620,7 +646,7 @@ def main():
         if track:
             for j, sp in enumerate(members):
                 sp['dt'] = rng.choice([1, 2, (0, 3), (5, 6), 7])
-        objs = [build(sp, style=n + j) for j, sp in enumerate(members)]
+        objs = [(build_via_history if (n + j) % 4 == 1 else build)(sp, style=n + j) for j, sp in enumerate(members)]
         coll = Track(objs) if track else FeatureCollection(objs)
         order = [next(i for i, x in enumerate(objs) if x is o) for o in coll.geoshapes]           # Track sorts by start (stable)
         ups = copy.deepcopy(UPS[n % len(UPS)])
@@ -832,7 +858,7 @@ def replay(path):
         return x
     if 'spec' in m:
         spec = tup(m['spec'])
-        obj = build(spec, style=m.get('style', 0))
+        obj = (build_via_history if m.get('via_history') else build)(spec, style=m.get('style', 0))
         g = obj.to_geojson(properties=m.get('ups'), k=m.get('k'), **(m.get('kw') or {}))
         print('implementation now exports:', json.dumps(g)[:2000])
         print('RFC-shape violations now:', rfc_shape_violations(g))
